@@ -164,6 +164,11 @@ class Tracer:
         self.nops = 0
         self.counts = {"recv": 0, "send": 0, "frames": 0, "dels": 0, "stop": 0, "dup": 0, "reordered": 0, "paced": 0}
         self.seen = [set(), set(), set()]
+        self.ack_tx = []            # (datagrams, space, largest recorded at the write) of sends that entered _write_ack_frame
+        self.tx_h = {}              # (space, subject pn) -> largest recorded when that ACK frame was written
+        self.tx_done = set()
+        self.wire_seen = 0
+        self.wire_idx = {}
         self.c = consts()
         self._orig = ep.call
         ep.call = self.call
@@ -187,10 +192,12 @@ class Tracer:
 
         o_del = c._on_ack_delivery
 
-        def on_ack_delivery(delivery, space, highest_acked):
+        def on_ack_delivery(delivery, space, *rest):
+            # robust against a changed handler signature: without the argument the harness reconstructs which frame was
+            # acknowledged from the wire (see on_receive)
             if delivery == QuicDeliveryState.ACKED:
-                me.cur.append(("del", spi(space), highest_acked))
-            return o_del(delivery, space, highest_acked)
+                me.cur.append(("del", spi(space), rest[0] if rest else None))
+            return o_del(delivery, space, *rest)
 
         c._on_ack_delivery = on_ack_delivery
         o_w = c._write_ack_frame
@@ -225,6 +232,23 @@ class Tracer:
 
             tr.log_event = log_event
         del spaces
+
+    def resolve_tx(self):
+        net, obs = self.pair.network, self.pair.observer
+        for rec in net.wire_log[self.wire_seen:]:
+            self.wire_idx.setdefault(bytes(rec.data), rec.index)
+        self.wire_seen = len(net.wire_log)
+        rest = []
+        for (datagrams, sp, h) in self.ack_tx:
+            found = False
+            for data in datagrams:
+                for p in obs.by_datagram.get(self.wire_idx.get(data), []):
+                    if p.decrypted and PKT_SP.get(p.type) == sp and any(f.name in ("ACK", "ACK_ECN") for f in p.frames):
+                        self.tx_h.setdefault((sp, p.pn), h)
+                        found = True
+            if not found:
+                rest.append((datagrams, sp, h))
+        self.ack_tx = rest[-50:]
 
     def peek(self):
         c = self.ep.conn
@@ -336,6 +360,25 @@ class Tracer:
             ok = not before["closing"] and not (became_closing and k == len(pkts) - 1)
             elic = any(f.get("frame_type") not in NON_ELICITING for f in frames)
             hs = []
+            if any(h is None for _, _dsp, h in dels):
+                # handler called without highest_acked: take it from the wire -- the ACK-bearing packets of ours that this
+                # packet's ACK frames newly acknowledge, in increasing order (the order on_ack_received uses)
+                self.resolve_tx()
+                cands = []
+                for f in frames:
+                    if f.get("frame_type") == "ack":
+                        for a, b in f.get("acked_ranges", []):
+                            cands += [q for (s2, q) in self.tx_h if s2 == sp and a <= q <= b and (sp, q) not in self.tx_done]
+                cands = sorted(set(cands))
+                fixed = []
+                for _, dsp, h in dels:
+                    if h is None and cands:
+                        q = cands.pop(0)
+                        self.tx_done.add((sp, q))
+                        fixed.append(("del", dsp, self.tx_h[(sp, q)]))
+                    elif h is not None:
+                        fixed.append(("del", dsp, h))
+                dels = fixed
             for _, dsp, h in dels:
                 if dsp != sp:
                     self.bad.append(("ACK delivery for another space", {"oracle": "premise"}))
@@ -428,6 +471,7 @@ class Tracer:
                 self.counts["send"] += 1
                 if sp in rooms:
                     self.written[sp].add(self.lrp[sp])
+                    self.ack_tx.append((datagrams, sp, self.lrp[sp]))
                 self.log.append("send sp=%d t=%.6f delay=%d room=%d blocked=%d entered=%d" %
                                 (sp, now, delay, room, blocked, sp in rooms))
         self.flips(before, after)
